@@ -8,7 +8,8 @@ from grammar import Grammar, arm_accepts
 META = {
     "engine": "srcfacts+rules",
     "engines": ["srcfacts", "mirfacts", "rules"],
-    "technique": "static analysis: language inclusion between the pest grammar (pest_meta AST) and the match_nodes! consumers (syn)",
+    "technique": ("static analysis: language inclusion between the pest grammar (pest_meta AST) and the match_nodes! consumers (syn), "
+                  "symbolic evaluation of the consumers over the grammar's derivation trees, PEG acceptance of abstract line-level words"),
     "explanation": (
         "The grammar is parsed by pest's own meta-parser and the consumer arms by syn; nothing is parsed at run time. "
         "R1 (LANG): for every non-atomic, non-silent rule the complete set of child-token sequences the grammar can "
@@ -18,10 +19,10 @@ META = {
         "grammar is non-recursive, so the sets are finite and enumerated completely (the list rule is checked by "
         "alphabet). R2: the list consumer handles `transaction` with a non-empty arm and ignores only kinds that carry "
         "no transaction. R3: every alphabetic string terminal is case-insensitive. R4: NEWLINE covers CRLF, LF and CR "
-        "with CRLF tried before CR; the list rule allows blank lines, full-line comments and a final line without a "
-        "line break. R5: every keyword that can follow `money` and could lex as a currency code is excluded by the "
-        "currency look-ahead, and no ISO-4217 code is excluded. R6: arms without a currency child build GBP and arms "
-        "without a FEES/TAX child build zero GBP. R7: every CgtError built in the parser module is ParseError."),
+        "with CRLF tried before CR; the list rule — evaluated as a PEG over abstract line-level words — accepts blank lines, full-line comments and a final line with or without a "
+        "line break, and rejects two transactions on one line. R5: every keyword that can follow `money` and could lex as a currency code is excluded by the "
+        "currency look-ahead, and no ISO-4217 code is excluded. R6: the consumers are evaluated symbolically on every derivation tree: a tree without a currency node yields a GBP amount, "
+        "a tree without a FEES/TAX node yields zero GBP in fees/tax_paid, a tree with one yields the clause's own value. R7: every CgtError built in the parser module is ParseError."),
     "trusted_base": ["pest semantics of implicit WHITESPACE/COMMENT skipping and silent rules (pest 2.8 generator, read)",
                      "pest_meta parses the grammar exactly as pest_derive does", "syn token structure of match_nodes! arms"],
 }
@@ -44,10 +45,23 @@ def lang_inclusion(S, rep):
                    "crates/cgt-core/src/parser.rs", key=f"R1:{name}:no-consumer")
             continue
         n_rules += 1
-        if g.has_unbounded_rep(name):
-            # list rule: checked by alphabet in R2
-            continue
         arms = [a["pattern"] for m in fn["match_nodes"] for a in m["arms"]]
+        if g.has_unbounded_rep(name):
+            if fn["rule_matches"] or fn.get("rule_filters") or not arms:
+                # hand-written list consumer (loop / filter over as_rule()): checked by alphabet in R2
+                continue
+            # a match_nodes! list consumer: the repetition is unrolled past the longest arm, so that only a variadic
+            # element can accept the longer sequences
+            g2 = Grammar(S["grammar"])
+            g2.unroll = max(len(p) for p in arms) + 2
+            seqs = sorted({s for s, _ in g2.child_seqs(name)})
+            for s in seqs:
+                n_seq += 1
+                ok = any(arm_accepts(p, s) for p in arms)
+                rep.ob("R1", f"{name}:[{', '.join(s)}]", ok, "accepted by a consumer arm" if ok else
+                       f"the grammar can hand `{name}` the children [{', '.join(s)}] but no match_nodes! arm accepts that sequence: "
+                       "valid input is rejected", f"crates/cgt-core/src/parser.rs:{fn['line']}", key=f"R1:{name}:[{','.join(s)}]")
+            continue
         if not arms:
             rep.ob("R1", f"{name}:arms", False, f"consumer of `{name}` has no match_nodes! arms",
                    f"crates/cgt-core/src/parser.rs:{fn['line']}", key=f"R1:{name}:no-arms")
@@ -79,6 +93,10 @@ def list_level(S, g, rep):
         handled = set()
         ignored = set()
         wildcard_empty = False
+        if not fn["rule_matches"] and not fn.get("rule_filters") and fn["match_nodes"]:
+            _list_by_evaluation(S, g, name, fn, cons, rep)
+            rep.count("list_alphabet", sorted(alpha))
+            continue
         for m in fn["rule_matches"]:
             for a in m["arms"]:
                 for p in a["pats"]:
@@ -111,6 +129,60 @@ def list_level(S, g, rep):
         rep.count("list_alphabet", sorted(alpha))
     if not lists:
         rep.unresolved("R2", "list-rule", "no rule with an unbounded repetition")
+
+
+def _list_by_evaluation(S, g, name, fn, cons, rep):
+    """A `match_nodes!` list consumer: evaluate it symbolically (lib/consume.py) on every unrolled child sequence with a
+    distinct marker as the value of each child; every data child's marker must reach the result, in file order."""
+    from consume import Evaluator
+    arms = [a["pattern"] for m in fn["match_nodes"] for a in m["arms"]]
+    g2 = Grammar(S["grammar"])
+    g2.unroll = max(len(p) for p in arms) + 2
+
+    class Marked(Evaluator):
+        def consume(self, tree):
+            if tree[0] == name:
+                return Evaluator.consume(self, tree)
+            return ("child", tree[0], tree[2])
+    E = Marked(g2, cons)
+    per = {}
+    for seq in sorted({s for s, _ in g2.child_seqs(name)}):
+        tree = (name, tuple((t, (), i) for i, t in enumerate(seq)))
+        v = E.consume(tree)
+        order = []
+
+        def flat(x):
+            if isinstance(x, tuple) and len(x) == 3 and x[0] == "child":
+                order.append(x[2])
+                return
+            if isinstance(x, (tuple, list)):
+                for y in x:
+                    flat(y)
+            elif isinstance(x, dict):
+                for y in x.values():
+                    flat(y)
+        flat(v)
+        for i, t in enumerate(seq):
+            if t in ("COMMENT", "EOI"):
+                per.setdefault(t, True)
+                continue
+            ok = i in order
+            if not ok or per.get(t, True) is True:
+                per[t] = True if ok and per.get(t, True) is True else (per.get(t) if per.get(t, True) is not True else
+                                                                      f"`{t}` child #{i} of [{', '.join(seq)}] does not reach the result: lines would be skipped silently")
+        want = [i for i, t in enumerate(seq) if t not in ("COMMENT", "EOI")]
+        got = [i for i in order if i in want]
+        if got != want and sorted(set(got)) == want and per.get("order", True) is True:
+            per["order"] = f"the children of [{', '.join(seq)}] reach the result in the order {got}, not in file order"
+    for t in sorted(k for k in per if k != "order"):
+        if t in ("COMMENT", "EOI"):
+            rep.ob("R2", f"{name}:{t}", True, f"non-transaction kind `{t}` carries no data", f"crates/cgt-core/src/parser.rs:{fn['line']}",
+                   key=f"R2:{name}:{t}")
+        else:
+            rep.ob("R2", f"{name}:{t}", per[t] is True, f"every `{t}` child reaches the result of the list consumer" if per[t] is True
+                   else per[t], f"crates/cgt-core/src/parser.rs:{fn['line']}", key=f"R2:{name}:{t}")
+    if per.get("order", True) is not True:
+        rep.ob("R2", f"{name}:order", False, per["order"], f"crates/cgt-core/src/parser.rs:{fn['line']}", key=f"R2:{name}:order")
 
 
 def case_and_newlines(S, g, rep):
@@ -151,25 +223,31 @@ def case_and_newlines(S, g, rep):
         rep.ob("R4", f"{name}:anchored", bool(starts_soi and ends_eoi),
                "list rule is anchored SOI … EOI (trailing garbage is an error)" if starts_soi and ends_eoi else
                f"list rule is not anchored at both ends: {kinds}", "crates/cgt-core/src/parser.pest", key=f"R4:{name}:anchored")
-        rep.ob("R4", f"{name}:final-line", bool(has_rep and tail_opt),
-               "a final line without a line break is accepted (`line?` before EOI)" if has_rep and tail_opt else
-               "no optional final line before EOI: a missing final newline is rejected", "crates/cgt-core/src/parser.pest",
-               key=f"R4:{name}:final-line")
-        # line alternatives
-        line_rule = None
-        for p in parts:
-            if p["k"] == "opt" and p["e"]["k"] == "ident":
-                line_rule = p["e"]["s"]
-        if line_rule and line_rule in g.rules:
-            alts = g.choice_list(g.rules[line_rule]["expr"])
-            names = {a.get("s") for a in alts}
-            ok = "" in names and "COMMENT" in names and any(a["k"] == "ident" and g.ty(a["s"]) == "normal" and a["s"] != "COMMENT" for a in alts)
-            rep.ob("R4", f"{line_rule}:alternatives", ok,
-                   "a line is a transaction, a full-line comment or blank" if ok else
-                   f"line alternatives {sorted(str(x) for x in names)} do not cover transaction / comment / blank",
-                   "crates/cgt-core/src/parser.pest", key=f"R4:{line_rule}:alternatives")
-        else:
-            rep.unresolved("R4", "line", "optional final line rule not found")
+        data = sorted(t for t in g.alphabet(name) if t not in ("COMMENT", "EOI"))
+        if not data:
+            rep.unresolved("R4", "line", "the list rule has no data token")
+            continue
+        T = data[0]
+
+        def acc(*w):
+            return g.peg_accepts(name, list(w))
+        final_ok = acc(T) and acc(T, "N") and acc(T, "N", T) and acc(T, "N", T, "N")
+        rep.ob("R4", f"{name}:final-line", final_ok,
+               "the line-level language accepts a last line with and without a line break" if final_ok else
+               ("no optional final line before EOI: a missing final newline is rejected" if not acc(T) or not acc(T, "N", T) else
+                "a file that ends with a line break is rejected"), "crates/cgt-core/src/parser.pest", key=f"R4:{name}:final-line")
+        blank_ok = acc() and acc("N") and acc("N", T) and acc(T, "N", "N", T) and acc(T, "N", "N")
+        rep.ob("R4", f"{name}:blank-lines", blank_ok, "blank lines (and an empty file) are accepted anywhere" if blank_ok else
+               "a blank line is rejected somewhere: leading, between two transactions or trailing", "crates/cgt-core/src/parser.pest",
+               key=f"R4:{name}:blank-lines")
+        cm_ok = "COMMENT" not in g.rules or (acc("COMMENT") and acc("COMMENT", "N", T) and acc(T, "N", "COMMENT") and acc(T, "N", "COMMENT", "N", T))
+        rep.ob("R4", f"{name}:comment-lines", cm_ok, "full-line comments are accepted anywhere" if cm_ok else
+               "a full-line comment is rejected somewhere: first, last or between two transactions", "crates/cgt-core/src/parser.pest",
+               key=f"R4:{name}:comment-lines")
+        one_ok = all(not acc(a, b) for a in data for b in data)
+        rep.ob("R4", f"{name}:one-per-line", one_ok, "two transactions need a line break between them" if one_ok else
+               "two transactions without a line break between them are accepted", "crates/cgt-core/src/parser.pest",
+               key=f"R4:{name}:one-per-line")
     ws = g.rules.get("WHITESPACE")
     if ws is None:
         rep.unresolved("R4", "WHITESPACE", "no WHITESPACE rule: tokens could not be separated by spaces")
@@ -294,9 +372,9 @@ def currency_lookahead(S, g, rep):
     excl = set()
     for p in parts:
         if p["k"] == "neg":
-            for a in g.choice_list(p["e"]):
-                if a["k"] in ("str", "insens") and a["s"] and a["s"][0].isalpha():
-                    excl.add(a["s"].upper())
+            for s in g.strings_under(p["e"]):
+                if s and s[0].isalpha():
+                    excl.add(s.upper())
     fol = {k.upper() for k in follow_keywords(g)}
     rep.count("keywords_following_money", sorted(fol))
     rep.count("currency_exclusions", sorted(excl))
@@ -328,44 +406,127 @@ def currency_lookahead(S, g, rep):
            "crates/cgt-core/src/parser.pest", key="R5:currency_code:shape")
 
 
-def _norm(s):
-    return re.sub(r"\s+", "", s)
+def _is_zero(t):
+    return (t[0] == "path" and t[1].split("::")[-1] == "ZERO") or (t[0] == "macro" and t[1] == "dec" and t[2].strip() in ("0", "0.0")) \
+        or (t[0] == "call" and t[1].split("::")[-1] in ("zero",) and not t[2])
+
+
+def _is_gbp(t):
+    return t[0] == "path" and t[1].split("::")[-1] == "GBP"
+
+
+def _is_zero_gbp(t):
+    if t[0] == "call" and t[1].split("::")[-2:] == ["CurrencyAmount", "new"] and len(t[2]) == 2:
+        return _is_zero(t[2][0]) and _is_gbp(t[2][1])
+    if t[0] == "struct" and t[1].split("::")[-1] == "CurrencyAmount":
+        return _is_zero(t[2].get("amount", ("?",))) and _is_gbp(t[2].get("currency", ("?",)))
+    return False
+
+
+def _short(t, n=90):
+    def go(x):
+        if isinstance(x, tuple) and x:
+            if x[0] == "path":
+                return x[1]
+            if x[0] == "atom":
+                return f"<{x[1]}>"
+            if x[0] == "call":
+                return f"{x[1]}({', '.join(go(a) for a in x[2])})"
+            if x[0] == "struct":
+                return f"{x[1]} {{…}}"
+            if x[0] == "closure":
+                return "|…| …"
+            return x[0] + "(" + ", ".join(go(a) for a in x[1:] if isinstance(a, (tuple, list))) + ")"
+        if isinstance(x, list):
+            return "[" + ", ".join(go(a) for a in x) + "]"
+        return str(x)
+    return go(t)[:n]
 
 
 def defaults(S, g, rep):
+    """R6 by symbolic evaluation of the consumers over every derivation tree (lib/consume.py): whatever the arms, helpers
+    and intermediate tuples look like, a tree without a currency code must evaluate to an amount in GBP, a tree without a
+    FEES/TAX clause to an operation whose fees/tax_paid is zero GBP, and a tree with the clause to one that carries the
+    clause's own value."""
+    from consume import Trees, Evaluator, tokens_of, show_tree, find_structs, contains
     cons = consumers(S)
-    zero_gbp = _norm("CurrencyAmount::new(Decimal::ZERO, Currency::GBP)")
+    T = Trees(g)
+    E = Evaluator(g, cons)
     n = 0
-    for name, fn in cons.items():
-        for m in fn["match_nodes"]:
-            arms = m["arms"]
-            for a in arms:
-                rules = [p["rule"] for p in a["pattern"]]
-                if name == "money":
-                    if "currency_code" not in rules:
-                        n += 1
-                        ok = "Currency::GBP" in _norm(a["body"])
-                        rep.ob("R6", "money:no-currency→GBP", ok,
-                               "an amount without a currency code is built as GBP" if ok else
-                               f"the arm for an amount without currency builds `{a['body'][:60]}`", f"crates/cgt-core/src/parser.rs:{a['line']}",
-                               key="R6:money:default-currency")
-                    continue
-                if not name.startswith("cmd_"):
-                    continue
-                for st in a["structs"]:
-                    if not st["path"].startswith("Operation::"):
+    n_trees = 0
+    if "money" in g.rules and "money" in cons:
+        bad = None
+        k = 0
+        for tree in T.trees("money"):
+            toks = tokens_of(tree)
+            v = E.consume(tree)
+            n_trees += 1
+            if "currency_code" not in toks:
+                k += 1
+                ok = v[0] == "call" and v[1].split("::")[-2:] == ["CurrencyAmount", "new"] and len(v[2]) == 2 and _is_gbp(v[2][1]) \
+                    and contains(v[2][0], ("atom", "decimal"))
+                if not ok and bad is None:
+                    bad = f"an amount without a currency code ({show_tree(tree)}) is built as `{_short(v)}`, not as GBP"
+            else:
+                ok = contains(v, ("atom", "currency_code")) and contains(v, ("atom", "decimal"))
+                if not ok and bad is None:
+                    bad = f"an amount with a currency code ({show_tree(tree)}) is built as `{_short(v)}`: the written code is not used"
+        if k:
+            n += 1
+            rep.ob("R6", "money:no-currency→GBP", bad is None, "an amount without a currency code is built as GBP; a written code is used"
+                   if bad is None else bad, f"crates/cgt-core/src/parser.rs:{cons['money']['line']}", key="R6:money:default-currency")
+    else:
+        rep.unresolved("R6", "money", "no `money` rule/consumer")
+    for name in g.order:
+        if g.ty(name) != "normal" or name not in cons or g.has_unbounded_rep(name):
+            continue
+        per = {}
+        for tree in T.trees(name):
+            v = E.consume(tree)
+            n_trees += 1
+            sts = find_structs(v, "Operation::")
+            if not sts:
+                continue
+            # only the rule whose own consumer builds the operation (its children's values do not contain it yet)
+            if any(find_structs(E.consume(k), "Operation::") for k in tree[1]):
+                continue
+            toks = tokens_of(tree)
+            for st in sts:
+                for fld, clause in (("fees", "fees"), ("tax_paid", "tax")):
+                    if fld not in st[2]:
                         continue
-                    for fld, clause in (("fees", "fees"), ("tax_paid", "tax")):
-                        if fld in st["fields"] and clause not in rules:
-                            n += 1
-                            ok = _norm(st["fields"][fld]) == zero_gbp
-                            rep.ob("R6", f"{name}:no-{clause}→0 GBP", ok,
-                                   f"omitted {clause.upper()} clause builds zero GBP" if ok else
-                                   f"arm without a {clause.upper()} child sets `{fld}` to `{st['fields'][fld]}`",
-                                   f"crates/cgt-core/src/parser.rs:{a['line']}", key=f"R6:{name}:default-{fld}")
+                    val = st[2][fld]
+                    slot = per.setdefault((fld, clause), {"absent": 0, "present": 0, "bad": None})
+                    if clause not in toks:
+                        slot["absent"] += 1
+                        if not _is_zero_gbp(val) and slot["bad"] is None:
+                            slot["bad"] = (f"without a {clause.upper()} clause ({show_tree(tree)}) `{st[1]}.{fld}` is `{_short(val)}`, "
+                                           "not zero GBP")
+                    else:
+                        slot["present"] += 1
+                        sub = [k for k in _subtrees(tree) if k[0] == clause]
+                        want = E.consume(sub[0]) if sub else None
+                        if (want is None or not contains(val, want)) and slot["bad"] is None:
+                            slot["bad"] = (f"with a {clause.upper()} clause ({show_tree(tree)}) `{st[1]}.{fld}` is `{_short(val)}`: "
+                                           "the written amount is dropped")
+        for (fld, clause), slot in sorted(per.items()):
+            if slot["absent"]:
+                n += 1
+            rep.ob("R6", f"{name}:{clause}→{fld}", slot["bad"] is None,
+                   f"omitted {clause.upper()} builds zero GBP ({slot['absent']} trees), a written one is kept ({slot['present']} trees)"
+                   if slot["bad"] is None else slot["bad"], f"crates/cgt-core/src/parser.rs:{cons[name]['line']}",
+                   key=f"R6:{name}:default-{fld}")
     rep.count("default_arms", n)
+    rep.count("derivation_trees_evaluated", n_trees)
     if n < 6:
-        rep.unresolved("R6", "default-arms", f"only {n} defaulting arms found")
+        rep.unresolved("R6", "default-arms", f"only {n} defaulting rule/field pairs found")
+
+
+def _subtrees(tree):
+    out = [tree]
+    for k in tree[1]:
+        out += _subtrees(k)
+    return out
 
 
 def parser_errors(F, rep):
